@@ -14,6 +14,7 @@ func (e *Engine) setupModels() {
 	e.setupAtomic()
 	e.setupFlag()
 	e.setupSort()
+	e.setupHTTPRequestModel()
 }
 
 // quiesce lets every other thread run until none can move; returns the number of
